@@ -210,6 +210,7 @@ def main(chk):
     greedy_cases(chk, rng, 20 if q else 800)
     import c13_loops
     c13_loops.run(chk, rng, q)
+    c13_loops.run_tabular(chk, rng, q)
     chk.sample({"note": "heads on single-layer networks with random weights (logit scale 0.01 / 1 / 30, log-variance scale 1 / 40), unbatched "
                         "observation and batch sizes 1-5, action dimensions 1-3; greedy on tables with ties"})
     return chk.finish(
